@@ -4,6 +4,7 @@ import (
 	"fmt"
 	"go/token"
 	"go/types"
+	"strings"
 
 	"golang.org/x/tools/go/ssa"
 )
@@ -326,6 +327,11 @@ func runC07(c *Check) {
 				c.Touch(fn)
 				key := fmt.Sprintf("%s#unconfirmedTx.%s", c.P.Key(fn), fld.Name())
 				_, ok := allowedW[c.P.Key(topFn(fn))]
+				// filling in a record that was just created here (the constructor written in place) is not a
+				// write to a tracked tx
+				if fa, isFA := st.Addr.(*ssa.FieldAddr); isFA && isFreshObject(fa) && strings.HasPrefix(c.P.Key(topFn(fn)), "storage.") {
+					ok = true
+				}
 				c.Decide(ok, "R5", key, st.Pos(), "who-may-write", nil, "written by the repository's own API", "unconfirmedTx."+fld.Name()+" is written outside the frozen set of writers")
 				if fld == uUnsafe {
 					b, isC := isConstBool(st.Val)
